@@ -146,8 +146,10 @@ class Model:
 def header_name(rng, chars, used):
     while True:
         base = rng.choice(G.NAMES)
-        if chars and rng.random() < 0.45:
-            base = base[:3] + rng.choice(chars) + base[3:]
+        if chars and rng.random() < 0.5:
+            ch = ' ' if (' ' in chars and rng.random() < 0.45) \
+                else rng.choice(chars)
+            base = base[:3] + ch + base[3:]
         if rng.random() < 0.2:
             base += '-{}'.format(rng.randrange(9))
         n = base + '.h'
